@@ -230,6 +230,56 @@ class Ctx:
         self.replay_and_validate(cases_path, attribute, attribute_event, module=module, profile=profile, elem=elem,
                                  label=label + "-random", invariants=invariants)
 
+    def repo_tests_trace(self, attribute_event, module="ShapeTrace"):
+        """Third binding path: run the repository's own test-suite with the cfg-guarded dimension hook and validate
+        every recorded shape transition with TLC."""
+        import subprocess, shutil, glob
+        tdir = os.path.join(self.outdir, "hooktrace")
+        shutil.rmtree(tdir, ignore_errors=True)
+        os.makedirs(tdir)
+        flags = "--cfg toodee_verif --check-cfg cfg(toodee_verif)"
+        env = dict(os.environ, RUSTFLAGS=flags, RUSTDOCFLAGS=flags, CARGO_TARGET_DIR=os.path.join(core.OUT, "hooktarget"),
+                   TOODEE_VERIF_TRACE=tdir, CARGO_NET_OFFLINE="true")
+        t0 = time.time()
+        r = subprocess.run(["cargo", "test", "--offline", "--no-fail-fast", "--quiet"], cwd="/repo", env=env,
+                           stdout=subprocess.PIPE, stderr=subprocess.STDOUT, text=True)
+        if "error: could not compile" in r.stdout or "error[E" in r.stdout:
+            raise ToolError("the repository does not build with the verification hooks:\n" + r.stdout[-3000:])
+        files = sorted(glob.glob(os.path.join(tdir, "*.ndjson")))
+        logp = os.path.join(self.outdir, "hooktrace.events.ndjson")
+        nev = 0
+        with open(logp, "w") as fo:
+            for fn in files:
+                with open(fn) as fi:
+                    for line in fi:
+                        try:
+                            json.loads(line)
+                        except ValueError:
+                            continue
+                        fo.write(line)
+                        nev += 1
+        self.notes.append("repository test-suite with hooks: %d threads traced, %d shape transitions, cargo test rc=%d" % (len(files), nev, r.returncode))
+        if nev == 0:
+            raise ToolError("the hooked test-suite produced no trace (hooks missing from /repo?)")
+        ok, rejected, states = core.validate_trace(self.outdir, "hooktrace", module, logp, invariants=("TypeOK",))
+        self.events_validated += ok
+        self.traces_validated += len(files)
+        self.tlc.append({"name": "trace:repo-tests", "module": module, "states_generated": states, "distinct_states": states, "depth": 0,
+                         "cases_emitted": 0, "wall_s": round(time.time() - t0, 1), "coverage": None, "trace_events": nev,
+                         "trace_events_accepted": ok, "trace_rejections": len(rejected)})
+        log("[hooks] repository tests: %d events from %d threads, %d rejected" % (nev, len(files), len(rejected)))
+        for rj in rejected:
+            ev = rj.get("event")
+            if ev is None:
+                continue
+            props, sig = attribute_event(None, ev)
+            rec = {"trace": True, "rejected_event": ev, "source": "repository test-suite run with --cfg toodee_verif", "attributed_to": sorted(props),
+                   "signature": sig, "trace_module": module, "driver_mode": True}
+            if self.prop in props:
+                self.add_violation(rec, "shape transition of the repository's own tests rejected: %s" % json.dumps(ev))
+            else:
+                self.other.append({"attributed_to": sorted(props), "signature": sig})
+
     def count_nontrivial(self, cases_path, keyfn):
         """keyfn(case) -> hashable key or None (trivial)."""
         with open(cases_path) as f:
